@@ -355,6 +355,31 @@ func runC10(c *core.Ctx) {
 				}
 			}
 		})
+		if !ok {
+			// loop form: the removal round sits in a loop that is left only where the found-one flag reads false
+			inLoop, exitOnFalse := false, false
+			core.Instrs(u, func(ins ssa.Instruction) {
+				if call, isCall := ins.(*ssa.Call); isCall && core.InLoop(call.Block()) {
+					if g := core.Callee(&call.Call); g != nil && p.InRepo(g) {
+						inLoop = true
+					}
+				}
+				if r, isR := ins.(*ssa.Return); isR {
+					for _, cnd := range core.EdgeFacts(r.Block()) {
+						n := core.Normalize(cnd)
+						if ld, isLd := n.V.(*ssa.UnOp); isLd && ld.Op == token.MUL && !n.True {
+							if _, isA := ld.X.(*ssa.Alloc); isA {
+								exitOnFalse = true
+							}
+						}
+						if _, isCall := n.V.(*ssa.Call); isCall && !n.True {
+							exitOnFalse = true // `for removeFirst(s) {}` / `if !removeFirst(s) { return }`
+						}
+					}
+				}
+			})
+			ok = inLoop && exitOnFalse
+		}
 		c.Check(ok, "R5", "PublisherDef.Unsubscribe", p.Pos(u.Pos()), "repeats (recursion on the matched edge) until no occurrence is left", "Unsubscribe removes at most one occurrence: a subscription registered twice keeps receiving after Unsubscribe completed")
 		okS, dS := c10removal(p, u)
 		c.Check(okS, "R5", "PublisherDef.Unsubscribe/removal", p.Pos(u.Pos()), dS, dS)
@@ -465,7 +490,22 @@ func c10map(p *core.Prog, m *ssa.Function) (bool, string) {
 	if len(fwd.Params) == 0 {
 		return false, "the forwarding function takes no value"
 	}
-	in := fwd.Params[len(fwd.Params)-1]
+	in := ssa.Value(fwd.Params[len(fwd.Params)-1])
+	// a forwarding closure that only defers a call to a helper: analyse the helper with its parameters read as the arguments
+	thinArg := map[ssa.Value]ssa.Value{}
+	if tgt, call := core.ThinTarget(p, fwd); tgt != nil {
+		for i, prm := range tgt.Params {
+			if i < len(call.Call.Args) {
+				thinArg[prm] = call.Call.Args[i]
+			}
+		}
+		for prm, a := range thinArg {
+			if core.Resolve(a) == in {
+				in = prm
+			}
+		}
+		fwd = tgt
+	}
 	// returned publisher
 	var retVal ssa.Value
 	core.Instrs(m, func(ins ssa.Instruction) {
@@ -474,7 +514,12 @@ func c10map(p *core.Prog, m *ssa.Function) (bool, string) {
 		}
 	})
 	// value of a captured variable / receiver field of the forwarding function, seen from Map
-	captured := func(v ssa.Value) ssa.Value { return fv.Outer(v) }
+	captured := func(v ssa.Value) ssa.Value {
+		if a, ok := thinArg[core.Resolve(v)]; ok {
+			v = a
+		}
+		return fv.Outer(v)
+	}
 	nPub, okShape := 0, false
 	core.Instrs(fwd, func(ins ssa.Instruction) {
 		call, ok := ins.(*ssa.Call)
@@ -485,7 +530,7 @@ func c10map(p *core.Prog, m *ssa.Function) (bool, string) {
 			nPub++
 			// receiver is the captured new publisher (same variable that Map returns), argument is fn(in)
 			arg, isCall := call.Call.Args[1].(*ssa.Call)
-			if cv := captured(call.Call.Args[0]); cv != nil && cv == retVal && isCall && len(arg.Call.Args) == 1 && arg.Call.Args[0] == ssa.Value(in) && captured(arg.Call.Value) == ssa.Value(m.Params[1]) {
+			if cv := captured(call.Call.Args[0]); cv != nil && cv == retVal && isCall && len(arg.Call.Args) == 1 && arg.Call.Args[0] == in && captured(arg.Call.Value) == ssa.Value(m.Params[1]) {
 				okShape = true
 			}
 		}
@@ -547,8 +592,55 @@ func c10removal(p *core.Prog, u *ssa.Function) (bool, string) {
 	if !lowOK {
 		return false, "the rest appended after list[:i] does not start at i+1: the matching element is kept (and the removal repeats forever) or a neighbour is dropped or duplicated"
 	}
+	// searchHelper: idx is the result of a search helper that returns an index only where list[index] equals its
+	// argument (and a negative constant otherwise); then "idx >= 0" is the match edge
+	searchHelper := func() bool {
+		call, ok := core.Resolve(idx).(*ssa.Call)
+		if !ok {
+			return false
+		}
+		h := core.Callee(&call.Call)
+		if h == nil || !p.InRepo(h) || len(h.Blocks) == 0 {
+			return false
+		}
+		found := false
+		for _, rc := range core.ReturnCases(h) {
+			v := core.Resolve(rc.Vals[0])
+			if k, isK := v.(*ssa.Const); isK && k.Value != nil && k.Int64() < 0 {
+				continue
+			}
+			okc := false
+			for _, m := range rc.Cmps() {
+				if m.Op != token.EQL {
+					continue
+				}
+				for _, side := range []ssa.Value{m.X, m.Y} {
+					if ld, isLd := core.Resolve(side).(*ssa.UnOp); isLd && ld.Op == token.MUL {
+						if ia, isIA := ld.X.(*ssa.IndexAddr); isIA && core.Resolve(ia.Index) == v {
+							okc = true
+						}
+					}
+				}
+			}
+			if !okc {
+				return false
+			}
+			found = true
+		}
+		return found
+	}()
 	// on the edge list[i] == subscription
 	matchEdge := func(b *ssa.BasicBlock) bool {
+		if searchHelper {
+			for _, m := range core.EdgeCmps(b) {
+				if core.Resolve(m.X) != core.Resolve(idx) {
+					continue
+				}
+				if m.Op == token.GEQ && core.IsIntConst(m.Y, 0) || m.Op == token.GTR && core.IsIntConst(m.Y, -1) || m.Op == token.NEQ && core.IsIntConst(m.Y, -1) {
+					return true
+				}
+			}
+		}
 		for _, m := range core.EdgeCmps(b) {
 			if m.Op != token.EQL {
 				continue
@@ -578,12 +670,28 @@ func c10removal(p *core.Prog, u *ssa.Function) (bool, string) {
 			}
 		}
 	})
+	loopForm := false
+	if guard == nil {
+		// loop form: the flag decides the return
+		core.Instrs(u, func(ins ssa.Instruction) {
+			if r, isR := ins.(*ssa.Return); isR {
+				for _, cnd := range core.EdgeFacts(r.Block()) {
+					n := core.Normalize(cnd)
+					if ld, isLd := n.V.(*ssa.UnOp); isLd && ld.Op == token.MUL && !n.True {
+						if _, isA := ld.X.(*ssa.Alloc); isA {
+							guard, loopForm = cnd.If, true
+						}
+					}
+				}
+			}
+		})
+	}
 	if guard != nil {
 		n := core.Normalize(core.Cond{V: guard.Cond, True: true})
 		if ld, isLd := n.V.(*ssa.UnOp); isLd && ld.Op == token.MUL {
 			if cell, isA := ld.X.(*ssa.Alloc); isA {
 				// the recursion must sit on the flag-true edge
-				onTrue := false
+				onTrue := loopForm
 				core.Instrs(u, func(ins ssa.Instruction) {
 					if call, isCall := ins.(*ssa.Call); isCall && core.Callee(&call.Call) == u {
 						for _, cnd := range core.EdgeFacts(call.Block()) {
